@@ -2,7 +2,7 @@
 # usage: seedtest.sh <prop> <dir-with-patch.diff> [tier]  — applies the change to /repo, runs the check, reverts.
 prop=$1; dir=$2; tier=${3:-quick}
 cd /repo || exit 2
-if [ -n "$(git status --porcelain)" ]; then echo "repo dirty"; exit 2; fi
+if [ -n "$(git status --porcelain --untracked-files=no)" ]; then echo "repo dirty"; exit 2; fi
 git apply "$dir/patch.diff" || { echo "patch does not apply"; exit 2; }
 cd /verif && ./check "$prop" "$tier" > /tmp/seed_out.txt 2>&1; rc=$?
 cd /repo && git checkout -- . 
